@@ -91,8 +91,9 @@ int main(int argc, char **argv) {
     (void)have_decseed; (void)decseed;
     pthread_t dt; pthread_create(&dt, nullptr, dummy_thread, nullptr);   // __libc_single_threaded = false from the start
     heap_init(); sched_init(); rt::on_die = emit_summary;
-    if (const char *ex = getenv("DSIM_EXCL")) {      // pc ranges of functions whose allocations are accounted separately (thread_allocs_excluding)
-        if (FILE *f = fopen(ex, "r")) { unsigned long lo, hi; while (fscanf(f, "%lx %lx", &lo, &hi) == 2) dsim::exclude_alloc_fn((const void *)lo, (const void *)hi); fclose(f); }
+    {   // pc ranges of functions whose allocations are accounted separately (thread_allocs_excluding): <exe>.excl, written by bin/check
+        char path[600]; ssize_t n = readlink("/proc/self/exe", path, 500);
+        if (n > 0) { strcpy(path + n, ".excl"); if (FILE *f = fopen(path, "r")) { unsigned long lo, hi; while (fscanf(f, "%lx %lx", &lo, &hi) == 2) dsim::exclude_alloc_fn((const void *)lo, (const void *)hi); fclose(f); } }
     }
 
     // warm-up run: absorbs lazily initialised statics on the ordinary heap; result discarded
